@@ -164,3 +164,35 @@ def c13(ctx, rep):
     detectors.rule_group_verdicts(ctx, rep)
     detectors.rule_offset_inversion(ctx, rep)
     detectors.rule_validated_in_block(ctx, rep)
+
+
+from .rules import cfg_rules  # noqa: E402
+
+
+@prop("C04", "Decides the structural clauses of C04: (T-FLOW) the control-flow table of the four parser passes for every AVM opcode "
+             "(fall-through, jump targets, block boundary, ordered successors, mirrored predecessors); (T-CFG) parse_teal on 29 "
+             "abstract program shape classes against an independent reference construction incl. pruning of unreachable code and "
+             "well-formedness; (R-PAIR) edge pairing, (R-ITER) no mutation under iteration, (R-ORDER) pass order, (R-DEDUP) "
+             "duplicate-free successors, (R-OWN) who may write edges; (T-GLOBAL) global successor/predecessor tables mutually "
+             "inverse. Not decided: that every concrete execution of every program is a walk in the graph.")
+def c04(ctx, rep):
+    cfg_rules.rule_flow_table(ctx, rep)
+    cfg_rules.rule_cfg_shapes(ctx, rep)
+    cfg_rules.rule_no_mutation_under_iteration(ctx, rep)
+    cfg_rules.rule_edge_pairing(ctx, rep)
+    cfg_rules.rule_pass_order(ctx, rep)
+    cfg_rules.rule_successor_dedup(ctx, rep)
+    cfg_rules.rule_edge_ownership(ctx, rep)
+    cfg_rules.rule_global_edges_inverse(ctx, rep)
+
+
+@prop("C05", "Decides the structural clauses of C05: (T-CFG subroutines) on 29 abstract program shape classes (0-3 subroutines; nested, "
+             "shared, recursive and mutually recursive calls; calls in loops; dead call sites; subroutines before/after main; callsub as "
+             "last instruction) the subroutine set, membership, exits, retsub blocks, caller and return-point tables equal an independent "
+             "reference construction, every callsub block knows its callee and return point; (T-CALLGRAPH) call-graph edges = retained "
+             "call sites; (R-SIBLING) the three return-point implementations agree. Not decided: every arrangement of every program.")
+def c05(ctx, rep):
+    cfg_rules.rule_cfg_shapes(ctx, rep, rule="T-CFG(subroutines)", subs_only=True)
+    cfg_rules.rule_call_graph(ctx, rep)
+    cfg_rules.rule_return_point_siblings(ctx, rep)
+    cfg_rules.rule_global_edges_inverse(ctx, rep)
